@@ -14,6 +14,10 @@ pub mod shapes;
 #[cfg(kani)]
 mod c01;
 #[cfg(kani)]
+mod c08;
+#[cfg(kani)]
+mod c03;
+#[cfg(kani)]
 mod c10;
 #[cfg(kani)]
 mod c16;
@@ -24,7 +28,11 @@ mod c07;
 #[cfg(kani)]
 mod c04;
 #[cfg(kani)]
+mod gen_c04;
+#[cfg(kani)]
 mod c05;
+#[cfg(kani)]
+mod gen_c05;
 #[cfg(kani)]
 mod c06;
 #[cfg(kani)]
